@@ -36,6 +36,7 @@ func init() {
 		if na != nil {
 			gen.CheckReserved(c.Run, c.Prog, na, freeNameList(c, "G-RESERVED"), false)
 		}
+		gen.CheckVarNameOwners(c.Run, c.Prog)
 		c.Run.Floor("G-RESERVED/covers", 40)
 		c.RunSkeletons(SkelOpts{Rules: []string{"G-SCOPE", "K-RECORD/literal"}, Env: smallEnv})
 	})
